@@ -110,6 +110,8 @@ func bubble(t *testing.T, f func()) {
 	synctest.Test(t, func(*testing.T) { f() })
 }
 
+func evidFor(p string) *evid.Collector { return evid.For(p) }
+
 // ---- known findings -------------------------------------------------------------------
 
 type knownFinding struct {
